@@ -302,9 +302,40 @@ def run_check(pid, tier, seed, replay, t0, debug=False):
             coqchk = " ".join(m.group(1).split()) if m else "ok"
 
     # 3. cases
+    def all_cases(seed_, tier_):
+        cs = []
+        cdir_ = os.path.join(ROOT, "corpus", pid)
+        if os.path.isdir(cdir_):
+            for f in sorted(os.listdir(cdir_)):
+                if f.endswith(".json"):
+                    c_ = json.load(open(os.path.join(cdir_, f)))
+                    c_["_corpus"] = f
+                    cs.append(c_)
+        rng_ = random.Random(seed_ * 1000003 + int(hashlib.sha256(pid.encode()).hexdigest()[:6], 16))
+        return cs + mod.gen(rng_, tier_)
+
     if replay:
         rep = json.load(open(replay))
         cases = [rep["case"]] if "case" in rep and rep["case"] is not None else []
+        if cases and rep.get("history"):
+            # some failures need what the process did before (caches, module-level state): if the recorded case passes in
+            # isolation, replay the recorded run up to and including it
+            try:
+                with quiet():
+                    alone = mod.run(cases[0])
+            except Timeout:
+                alone = None
+            if alone is not None and not alone.oracle:
+                h = rep["history"]
+                prefix = all_cases(h["seed"], h["tier"])[:h["index"] + 1]
+                if prefix and json.dumps(prefix[-1], sort_keys=True) == json.dumps(dict(cases[0], **({"_corpus": prefix[-1]["_corpus"]} if "_corpus" in prefix[-1] else {})), sort_keys=True):
+                    print(f"(the recorded case passes in isolation: replaying the {len(prefix) - 1} cases that preceded it in the recorded run first)")
+                    for c_ in prefix[:-1]:
+                        try:
+                            with quiet():
+                                mod.run(c_)
+                        except BaseException:  # noqa: BLE001
+                            pass
     else:
         cases = []
         cdir = os.path.join(ROOT, "corpus", pid)
@@ -393,7 +424,8 @@ def run_check(pid, tier, seed, replay, t0, debug=False):
         rp = os.path.join(rdir, f"{pid}_{case_key(cases[i])}.json")
         json.dump({"property": pid, "kind": "failing-input", "case": cases[i],
                    "oracle": outcomes[i].oracle, "model_disagrees": i in mismatches,
-                   "broken": broken, "n_failing": len(real_fail)}, open(rp, "w"), indent=1)
+                   "broken": broken, "n_failing": len(real_fail),
+                   "history": {"seed": seed, "tier": tier, "index": i}}, open(rp, "w"), indent=1)
         print(f"VIOLATION property={pid} replay={rp}")
         print("  " + outcomes[i].oracle.replace("\n", "\\n")[:1500])
         rc = 1
